@@ -1,4 +1,4 @@
-//verif:needs core,sip,prod
+//verif:needs core,sip,prod,lab
 package main
 
 // C10 - a UDP datagram is processed in isolation from every other datagram.
@@ -13,6 +13,7 @@ import (
 	"bytes"
 	"fmt"
 	"strconv"
+	"strings"
 	"testing"
 	"time"
 
@@ -320,6 +321,162 @@ func TestC10(t *testing.T) {
 		}
 		if gi != len(got) {
 			failf(rt, "sequence %v: %d messages delivered, %d datagrams were complete", desc, len(got), gi)
+		}
+	})
+
+	c10Lab(t)
+}
+
+// c10Body: the body of datagram id, a keyed pseudo-random function of the id.
+func c10Body(id string, n int) []byte {
+	x := uint32(hash64(id)) | 1
+	b := make([]byte, n)
+	for i := range b {
+		x ^= x << 13
+		x ^= x >> 17
+		x ^= x << 5
+		b[i] = byte(x)
+	}
+	return b
+}
+
+// c10Lab: bursts of datagrams through the real receive goroutine, pool and
+// parse loop of a listening proxy; every relayed datagram must be a function
+// of exactly one sent datagram.
+func c10Lab(t *testing.T) {
+	V.Require("lab: burst relayed and attributed", "lab: truncated or over-declared datagram inside a burst")
+	svc, err := newStdSvc(stdVariant{})
+	if err != nil {
+		V.HarnessError(t, "cannot start lab instance: %v", err)
+	}
+	s := svc
+	rcheck(t, "lab-bursts", V.N(60, 400), func(rt *rapid.T) {
+		entry := rapid.IntRange(0, 1).Draw(rt, "entry")
+		l := s.in.cfg.Listens[entry]
+		k := rapid.IntRange(2, 40).Draw(rt, "datagrams")
+		type sent struct {
+			id    string
+			src   *labEP
+			body  []byte // expected relayed body; nil = nothing may be relayed
+			subj  string
+			wire  []byte
+			descr string
+		}
+		var plan []sent
+		budget := 60000 // bytes in flight: the listener's socket buffer must not overflow
+		for i := 0; i < k && budget > 600; i++ {
+			id := s.nextID("c10b-")
+			src := s.uas[rapid.IntRange(0, 3).Draw(rt, "src")]
+			n := 0
+			switch rapid.IntRange(0, 4).Draw(rt, "size") {
+			case 0:
+				n = 0
+			case 1, 2:
+				n = rapid.IntRange(1, 300).Draw(rt, "n")
+			case 3:
+				n = rapid.IntRange(300, 5000).Draw(rt, "n")
+			default:
+				n = rapid.IntRange(5000, 40000).Draw(rt, "n")
+			}
+			if n > budget-500 {
+				n = budget - 500
+			}
+			body := c10Body(id, n)
+			subj := gFromAlphabet(rt, "subject", tokAlpha, 1, 12)
+			decl := n
+			exp := body
+			descr := fmt.Sprintf("valid %dB", n)
+			mutation := rapid.IntRange(0, 6).Draw(rt, "mutation")
+			switch {
+			case mutation == 0:
+				decl = n + rapid.IntRange(1, 2000).Draw(rt, "over")
+				exp, descr = nil, fmt.Sprintf("over-declared %d/%d", decl, n)
+			case mutation == 1 && n > 0:
+				decl = rapid.IntRange(0, n-1).Draw(rt, "under")
+				exp, descr = body[:decl], fmt.Sprintf("under-declared %d/%d", decl, n)
+			}
+			wire := []byte(fmt.Sprintf("MESSAGE sip:svc.test SIP/2.0\r\nVia: SIP/2.0/UDP %s:5060;branch=z9hG4bK%s\r\nFrom: <sip:a@b>;tag=1\r\nTo: <sip:svc@nomatch.example>\r\nCall-ID: %s\r\nCSeq: 1 MESSAGE\r\nSubject: %s\r\nContent-Length: %d\r\n\r\n", src.ip, id, id, subj, decl))
+			hdrLen := len(wire)
+			wire = append(wire, body...)
+			if mutation == 2 {
+				cut := rapid.IntRange(1, len(wire)-1).Draw(rt, "cut")
+				if cut < hdrLen || cut < len(wire) {
+					wire = wire[:cut]
+					exp, descr = nil, fmt.Sprintf("cut at %d of %d", cut, hdrLen+n)
+				}
+			}
+			budget -= len(wire)
+			plan = append(plan, sent{id, src, exp, subj, wire, descr})
+			s.model.learnRequest(s.model.transport(entry, "udp"), src.ip, &AMsg{IsReq: true, Hdrs: []AHdr{{Kind: hVia, Vias: []AVia{{Host: src.ip}}}}})
+		}
+		var desc []string
+		var wires [][]byte
+		for _, p := range plan {
+			desc = append(desc, p.id+" "+p.descr)
+			wires = append(wires, p.wire)
+		}
+		V.Journal(t.Name()+"/lab-bursts", desc)
+		s.in.expect(wires...)
+		for _, p := range plan {
+			p.src.sendUDP(l.Addr, l.UDPPort, p.wire)
+		}
+		expected := 0
+		for _, p := range plan {
+			if p.body != nil {
+				expected++
+			}
+		}
+		var got []labRx
+		seen := map[*labEP]bool{}
+		for _, p := range plan {
+			if seen[p.src] {
+				continue
+			}
+			seen[p.src] = true
+			src := p.src
+			min := 0
+			if len(seen) == 1 {
+				min = expected
+			}
+			rs, err := s.in.settle(func(b []byte) error { return src.sendUDP(l.Addr, l.UDPPort, b) }, min)
+			if _, lost := err.(labLost); lost {
+				failf(rt, "%v", err)
+			} else if err != nil {
+				V.HarnessError(rt, "%v", err)
+			}
+			got = append(got, labMessages(rs)...)
+		}
+		V.Class("lab: burst relayed and attributed")
+		V.NonTrivial(strings.Join(desc, "|"))
+		V.SampleEvery(15, func() any { return desc })
+		byID := map[string][]labRx{}
+		for _, r := range got {
+			id, _ := r.msg.First(hCallID)
+			byID[id] = append(byID[id], r)
+		}
+		for _, p := range plan {
+			rs := byID[p.id]
+			delete(byID, p.id)
+			if p.body == nil {
+				V.Class("lab: truncated or over-declared datagram inside a burst")
+				if len(rs) != 0 {
+					failf(rt, "datagram %s (%s) is incomplete and must be discarded, but something was relayed for it: %s\nburst: %v", p.id, p.descr, jsonBytes(rs[0].msg.Body), desc)
+				}
+				continue
+			}
+			if len(rs) != 1 {
+				failf(rt, "datagram %s (%s) was relayed %d times, want exactly once\nburst: %v", p.id, p.descr, len(rs), desc)
+			}
+			m := rs[0].msg
+			if !bytes.Equal(m.Body, p.body) {
+				failf(rt, "datagram %s (%s): relayed body (%d bytes) is not the body this datagram carried (%d bytes): it contains bytes from elsewhere\nrelayed: %s\nburst: %v", p.id, p.descr, len(m.Body), len(p.body), jsonBytes(m.Body), desc)
+			}
+			if sub, _ := m.Ext("Subject"); sub != p.subj {
+				failf(rt, "datagram %s: relayed Subject %q, sent %q\nburst: %v", p.id, sub, p.subj, desc)
+			}
+		}
+		for id, rs := range byID {
+			failf(rt, "a datagram with Call-ID %q was relayed (%d times) that corresponds to no datagram of the burst\nburst: %v", id, len(rs), desc)
 		}
 	})
 }
